@@ -125,6 +125,40 @@ def _views(ds):
     out["unknown_item_num"] = int(ds.items.numbers([123456], missing="negative")[0])
     return out
 
+def _stats_clauses(ds):
+    """per-user / per-item statistics against the record table — on the dataset as it is, and on a copy of its records in which every other
+    record has no rating value (an interaction without a rating is still an interaction: it counts, and it has a time)"""
+    import warnings, pandas as pd
+    from lenskit.data import DatasetBuilder
+    out = []
+    df = ds.interactions().pandas(ids=True)
+    if not len(df) or "rating" not in df.columns or "timestamp" not in df.columns: return out
+    users = [int(x) for x in ds.users.ids()]; items = [int(x) for x in ds.items.ids()]
+    base = pd.DataFrame({"user_id": df["user_id"].astype("int64"), "item_id": df["item_id"].astype("int64"), "rating": df["rating"].astype("float64"),
+                         "timestamp": df["timestamp"].astype("int64")}).reset_index(drop=True)
+    for label in ("as built", "with unrated interactions"):
+        d2 = base.copy(); target = ds
+        if label != "as built":
+            d2.loc[d2.index[::2], "rating"] = np.nan
+            b = DatasetBuilder(); b.add_entity_class("user"); b.add_relationship_class("rating", ["user", "item"], allow_repeats=False, interaction=True)
+            b.add_entities("user", np.array(users, dtype=np.int64)); b.add_entities("item", np.array(items, dtype=np.int64))
+            b.add_interactions("rating", d2, missing="error"); target = b.build()
+        with warnings.catch_warnings():
+            warnings.simplefilter("ignore"); tabs = (("user", "user_id", users, target.user_stats()), ("item", "item_id", items, target.item_stats()))
+        for cls, col, ids, st in tabs:
+            for e in ids:
+                rows = d2[d2[col] == e]; got = st.loc[e]; rated = rows["rating"].dropna()
+                want = {"count": len(rows), "rating_count": len(rated)}
+                bad = [k for k, w in want.items() if k in st.columns and int(got[k]) != w]
+                if "mean_rating" in st.columns and (pd.isna(got["mean_rating"]) != (len(rated) == 0) or (len(rated) and abs(float(got["mean_rating"]) - float(rated.mean())) > 1e-9)): bad.append("mean_rating")
+                for k, f in (("first_time", min), ("last_time", max)):
+                    if k in st.columns:
+                        w = None if not len(rows) else int(f(rows["timestamp"]))
+                        g = None if pd.isna(got[k]) else int(pd.Timestamp(got[k]).value if not isinstance(got[k], (int, np.integer)) else got[k])
+                        if g != w: bad.append(k)
+                if bad: out.append(f"{cls}_stats ({label}): {', '.join(bad)} wrong for {cls} {e}")
+    return out[:6]
+
 def run(case: dict, lean: Lean) -> Outcome:
     ds, errs = _build(case)
     if any(isinstance(e, str) and "timestamp column required" in e for e in errs):
@@ -156,6 +190,7 @@ def run(case: dict, lean: Lean) -> Outcome:
         for i in items:
             if v["item_counts"].get(i, 0) != sum(1 for x in ref if x[1] == i): failed.append(f"item_stats count wrong for {i}")
         if v["unknown_user"] is not None or v["unknown_item_num"] >= 0: failed.append("unknown identifier mapped to a number")
+        failed += _stats_clauses(ds)
         # the table itself must be what the model says the history denotes
         want = sorted((model["users"][r[0]], model["items"][r[1]], None if r[2] is None else float(Fraction(r[2]))) for r in model["recs"])
         if ref != want: failed.append("record table differs from the history's denotation")
